@@ -108,6 +108,7 @@ struct C08Opts
   int load_mode = 0;
   std::vector<uint32_t> chunks;
   bool via_file = false;
+  int prefill = 0;  // via_file: 0 new file, 1 the path holds an older, longer compiled image, 2 unrelated longer content
   bool redefine = false;
   bool redefine_string = false;
   bool cross_process = false;
@@ -211,6 +212,17 @@ static std::string check_case(const GSet& gs, const std::vector<bytes>& bufs, co
   {
     char path[] = "/tmp/verif-c08f-XXXXXX";
     int fd = mkstemp(path);
+    if (o.prefill)
+    {
+      // saving over an existing file is ordinary use: the path already holds something longer
+      std::string old = o.prefill == 1 ? image + image.substr(image.size() > 96 ? image.size() - 96 : 0) : std::string(image.size() + 777, '\x5a');
+      if (write(fd, old.data(), old.size()) != (ssize_t) old.size())
+      {
+        close(fd);
+        unlink(path);
+        return "harness: cannot prefill the temporary file";
+      }
+    }
     close(fd);
     rc = ys_rules_save_file(R.r, path);
     if (rc != 0)
@@ -303,7 +315,7 @@ static std::string check_case(const GSet& gs, const std::vector<bytes>& bufs, co
   classes += imports;
   classes += loops;
   ci.nontrivial = classes >= 3 && anymatch;
-  ci.classes.push_back(strf("load-mode-%d%s", o.load_mode, o.via_file ? "-file" : ""));
+  ci.classes.push_back(strf("load-mode-%d%s%s", o.load_mode, o.via_file ? "-file" : "", o.prefill ? "-over-existing-file" : ""));
   if (o.redefine)
     ci.classes.push_back("redefined-externals-before-save");
   if (chained)
@@ -327,7 +339,8 @@ std::string run_case(Src& s, CaseInfo& ci)
   o.load_mode = (int) s.weighted({50, 30, 20});
   size_t nch = o.load_mode ? s.range(0, 5) : 0;
   for (size_t i = 0; i < nch; i++) o.chunks.push_back((uint32_t) (s.coin(50) ? s.range(1, 16) : s.range(1, 5000)));
-  o.via_file = s.coin(10);
+  o.via_file = s.coin(14);
+  o.prefill = o.via_file ? (int) s.weighted({40, 35, 25}) : 0;
   o.redefine = s.coin(20);
   o.cross_process = s.coin(4);
   o.no_aslr = s.coin(40);
